@@ -275,7 +275,8 @@ def generate(rng, tier, index):
                           "odd-first-char", "big-fragment"])
     plan = {"prop": ID, "schema_xml": xml, "top": uni["top"],
             "variant": variant, "fault": None,
-            "entry": rng.choice(["url", "url", "path", "file"])}
+            "entry": rng.choice(["url", "url", "path", "file",
+                                 "file-nourl"])}
     res = TF.res_texts(uni)
     if variant == "invalid":
         injs = TF.enumerate_injections(ir, uni)
@@ -422,7 +423,9 @@ def generate(rng, tier, index):
     # real-file stratum: the same universe written to a scratch directory,
     # loaded with the current directory somewhere else, where files of the
     # same RELATIVE names exist
-    plan["realfs"] = (rng.random() < 0.25 and not plan["fault"] and all(
+    plan["realfs"] = (rng.random() < 0.25 and not plan["fault"]
+                      and not any("include /sim/" in t
+                                  for t in store.values()) and all(
         u.startswith("file:///sim/") and "%" not in u
         for u in list(store) + list(plan["decoys"])))
     # real-file stratum with the top resource handed over as a text stream:
@@ -577,6 +580,10 @@ def _execute(plan, out, store, decoys_in, top, real, report_plan=None):
         if entry == "path" and not (top.startswith("file:///")
                                     and "%" not in top):
             entry = "url"
+        if entry == "file-nourl" and (plan.get("via") or any(
+                _INC.match(ln) and "$" in ln
+                for ln in cut_store.get(top, "").split("\n"))):
+            entry = "url"
         if entry == "path":
             # the top resource named by its absolute path
             oc = ops.config_outcome(lambda: ZConfig.loadConfig(
@@ -585,10 +592,20 @@ def _execute(plan, out, store, decoys_in, top, real, report_plan=None):
             # ... or handed over as an open text stream with its URL
             oc = ops.config_outcome(lambda: ZConfig.loadConfigFile(
                 schema, io.StringIO(cut_store.get(top, "")), top))
+        elif entry == "file-nourl":
+            # ... or as a text stream WITHOUT any URL: its %include lines
+            # then name their targets absolutely (same targets)
+            ttext = "\n".join(
+                (ln[:len(ln) - len(ln.lstrip())] + "%include "
+                 + urllib.parse.urljoin(top, _INC.match(ln).group(1)))
+                if _INC.match(ln) else ln
+                for ln in cut_store.get(top, "").split("\n"))
+            oc = ops.config_outcome(lambda: ZConfig.loadConfigFile(
+                schema, io.StringIO(ttext)))
         else:
             oc = ops.config_outcome(lambda: ZConfig.loadConfig(schema, top))
         opened = list(w.opened)
-        if entry == "file":
+        if entry in ("file", "file-nourl"):
             # the caller opened the top resource itself
             opened = [top] + opened
         fired = w.op_fired
